@@ -333,7 +333,22 @@ func c03Fault(t *rapid.T, ty *core.Ty) (repl *core.X, class, detail string) {
 	S, B, I, F := core.Var("S", core.TStr), core.Var("B", core.TBool), core.Var("I", core.TInt), core.Var("F", core.TF64)
 	pick := func(n int, l string) int { return rapid.IntRange(0, n-1).Draw(t, l) }
 	universal := func() (*core.X, string, string) {
-		switch pick(6, "uni") {
+		ns := func(x *core.X) *core.X { x.NilSafe = true; return x }
+		switch pick(10, "uni") {
+		case 6:
+			// an unknown member of the result of a call whose ARGUMENT ends in a nil-safe chain
+			arg := ns(core.Field(core.Var("P", core.TPElem), "Next", core.TPElem))
+			return core.Field(core.Call("PickE", core.TPElem, arg, core.Var("P", core.TPElem)), "Zq", ty), "unknown-field", "PickE(P?.Next, P).Zq"
+		case 7:
+			arg := ns(core.Field(core.Field(core.Var("N", core.TNested), "PE", core.TPElem), "Next", core.TPElem))
+			return &core.X{K: "method", Name: "Zq", A: []*core.X{core.Call("PickE", core.TPElem, core.Var("P", core.TPElem), arg)}, Ty: ty}, "unknown-method", "PickE(P, N.PE?.Next).Zq()"
+		case 8:
+			// ... of an indexed element whose index holds a nil-safe chain, of the result of a builtin whose closure does
+			idx := core.Idx(core.Var("PEs", core.TPElems), core.Len(core.Arr(core.SeqOf(core.TPElem, core.RepIface), ns(core.Field(core.Var("P", core.TPElem), "Next", core.TPElem)))), core.TPElem)
+			return core.Field(idx, "Zq", ty), "unknown-field", "PEs[len([P?.Next])].Zq"
+		case 9:
+			flt := core.Builtin("filter", core.Var("PEs", core.TPElems), core.Bin("==", ns(core.Field(&core.X{K: "ptr", Ty: core.TPElem}, "Next", core.TPElem)), core.LitNil(), core.TBool), core.SeqOf(core.TPElem, core.RepIface))
+			return core.Field(core.Var("N", core.TNested), "Nope", ty), "unknown-field", "N.Nope after " + flt.Src()
 		case 0:
 			return core.Var("Zq", ty), "unknown-name", "Zq"
 		case 1:
